@@ -36,6 +36,9 @@ TRUSTED_BASE = [
 
 # which generated sections (translator/gen.py) each property's obligations read
 GEN_SECTIONS = {"C17": ["resolver"], "C18": ["mapping", "optimize"], "C19": ["discovery"], "C20": ["w3c"]}
+# signature defaults (translator/gen.py DEFAULT_GROUPS): one section per property that speaks about defaulted parameters
+for _p in ["C01", "C02", "C03", "C04", "C05", "C06", "C07", "C08", "C09", "C14", "C15", "C16", "C18", "C19"]:
+    GEN_SECTIONS.setdefault(_p, []).append(f"defaults_{_p}")
 
 
 BATCH = int(os.environ.get("VERIF_BATCH", "6000"))
